@@ -1,5 +1,5 @@
 (** C08 — a finalized listing is an immutable, binding offer until it expires. *)
-From FM Require Import Offer Reentrant CallSeq.
+From FM Require Import Offer Reentrant ReentrantDeep CallSeq.
 
 (** The owner of a listing still in preparation can finalize it for exactly the lifetimes
     600 .. 1209600 seconds, bounds included. *)
@@ -66,6 +66,13 @@ Theorem C08_status_monotone_with_reentry : forall tx w id,
   Inv (market w) -> (lrank (market w) id <= lrank (market (rrun w tx)) id)%nat.
 Proof. exact rrun_rank_mono. Qed.
 Print Assumptions C08_status_monotone_with_reentry.
+
+(** ... nested to any depth (model/ReentryDeep.v): [reaction] is the closure of nothing, sequencing,
+    and a marketplace call during which the hostile contract again reacts. *)
+Theorem C08_status_monotone_with_deep_reentry : forall k w id,
+  reaction k -> Inv (market w) -> (lrank (market w) id <= lrank (market (k w)) id)%nat.
+Proof. exact reaction_rank_mono. Qed.
+Print Assumptions C08_status_monotone_with_deep_reentry.
 
 (** Under every interleaving (proofs/CallSeq.v): along any sequence of successful marketplace
     calls, by anybody, in any order or nesting, a finalized listing stays in the store field for
